@@ -118,8 +118,8 @@ def gen_schema(rng, options=None):
 		for _ in range(rng.randrange(1, 4)):
 			count = fresh('count')
 			element = rng.choice(['ElemA', 'ElemA', 'ElemU', 'Plain', 'uint8', 'int8'] + [entry['name'] for entry in factories] + descendants[:3])
-			if header and rng.random() < 0.3:
-				element = rng.choice(['Key', 'Kind', 'Height'])  # arrays of aliases / enums only in aligned structs
+			if rng.random() < 0.25:
+				element = rng.choice(['Key', 'Kind', 'Height'])  # arrays of aliases / enums, in aligned and unaligned structs
 			body.append(f'\t{count} = {rng.choice(["uint8", "uint16"])}')
 			if rng.random() < 0.2:
 				body.append('\t@is_byte_constrained')
@@ -412,6 +412,8 @@ class Checker:
 				name = next(key for key in extensions if model_answer['exts'].get(key) != json.loads(json.dumps(extensions[key])))
 				ctx.fail('corr', f'extensions of {name}: model {str(model_answer["exts"].get(name))[:300]}, implementation {str(extensions[name])[:300]}', case)
 
+		self.check_history(load, models, observed, extensions, marks, case)
+
 		# clauses on the objects
 		from catparser.ast import Array  # pylint: disable=import-outside-toplevel
 		structs = {str(model.name): model for model in models if is_struct(model)}
@@ -505,6 +507,61 @@ class Checker:
 				ctx.fail('corr', f'requires_unaligned: model {sorted(model_results)}, implementation {marks}', case)
 
 
+def _check_history(self, load, models, observed, extensions, marks, case):
+	"""Second-order history: (a) extend_models called a second time on the same objects changes no observable; (b) a fresh parse
+	handed over in reverse declaration order gives the same marks and extensions, and the factory map of the reversed list lists the
+	same children in reverse (names and types unchanged); the model, given the reversed list, agrees with the implementation."""
+	import json  # pylint: disable=import-outside-toplevel
+
+	from catparser.generators.util import build_factory_map  # pylint: disable=import-outside-toplevel
+	ctx = self.ctx
+	again = run_extend(models)
+	if again is not None or observed_extensions(models) != extensions or unaligned_names(models) != marks:
+		self.fail_property(
+			f'extend_models is not idempotent: second call on the same models gives {again or unaligned_names(models)} after {marks}', case)
+	else:
+		ctx.count('history:idempotent')
+
+	reversed_models = list(reversed(expand(load())))
+	wire = cats_json.schema_to_wire(reversed_models)
+	try:
+		factory_map = build_factory_map(reversed_models)
+		reversed_observed = [[
+			str(key), [str(name) for name in value.discriminator_names], list(cats_json.canon(value.discriminator_values)),
+			[str(item) for item in value.discriminator_types], [str(child.name) for child in value.children]] for key, value in factory_map.items()]
+	except Exception as ex:  # pylint: disable=broad-except
+		reversed_observed = {'error': type(ex).__name__}
+	if isinstance(observed, dict) != isinstance(reversed_observed, dict):
+		self.fail_property(f'build_factory_map on the reversed list: {reversed_observed}, on the list: {observed}'[:600], case)
+	elif not isinstance(observed, dict):
+		forward = {row[0]: (row[1], row[3], row[4]) for row in observed}
+		backward = {row[0]: (row[1], row[3], list(reversed(row[4]))) for row in reversed_observed}
+		if forward != backward:
+			self.fail_property(f'build_factory_map depends on more than the declaration order: {forward} vs reversed {backward}'[:700], case)
+		else:
+			ctx.count('history:factory-map-reversed')
+	order = set_order(reversed_models)
+	raised = run_extend(reversed_models)
+	if raised is not None:
+		self.fail_property(f'extend_models raises {raised} on the reversed list only', case)
+		return
+	if observed_extensions(reversed_models) != extensions or unaligned_names(reversed_models) != marks:
+		self.fail_property(
+			f'extend_models depends on the order of the list: marks {unaligned_names(reversed_models)} vs {marks}'[:600], case)
+	else:
+		ctx.count('history:extend-reversed')
+	if ctx.driver is not None:
+		answer = cats_common.ask_json(ctx.driver, 'factory ' + wire)
+		if isinstance(reversed_observed, dict) != isinstance(answer, dict) or (not isinstance(answer, dict) and answer != reversed_observed):
+			ctx.fail('corr', f'reversed list, build_factory_map: model {str(answer)[:300]}, implementation {str(reversed_observed)[:300]}', case)
+		answer = cats_common.ask_json(ctx.driver, 'extend ' + (','.join(cats_json.enc_str(name)[1:] for name in order) or '-') + ' ' + wire)
+		if isinstance(answer['unaligned'], dict) or sorted(answer['unaligned']) != marks or answer['exts'] != json.loads(json.dumps(extensions)):
+			ctx.fail('corr', f'reversed list, extend_models: model {str(answer["unaligned"])[:200]}, implementation {marks}', case)
+
+
+Checker.check_history = _check_history
+
+
 def run(ctx):
 	rng = ctx.rng
 	checker = Checker(ctx)
@@ -514,7 +571,7 @@ def run(ctx):
 		if not no_derived_member_types(models):
 			ctx.notes.append(f'shipped set {name} does not satisfy the side condition of order independence')
 	checker.check(lambda: cats_common.parse_text(ORDER_DEPENDENT), 'order-dependent-example', ORDER_DEPENDENT)
-	count = ctx.scale(1500, 20000)
+	count = ctx.scale(1500, 12000)
 	for index in range(count):
 		text = gen_schema(rng, {'no_arrays_in_descendants': rng.random() < 0.5})
 		try:
@@ -539,7 +596,8 @@ MANIFEST = {
 	'level_text': (
 		'Lean theorems over the model of generators/util.py for all expanded schemas: factory_map_children, factory_map_discriminators, '
 		'no_descendants_no_entry, bound_field_of_count/size/sizeof, size_fields_inverse, abstract_contents_flag, unaligned_upper, '
-		'unaligned_lower, unaligned_empty, and order independence of the unaligned marks (marks = closure of the rules, any iteration order); tied to the code by a differential run '
+		'unaligned_lower, unaligned_empty, order independence of the unaligned marks (marks = closure of the rules, any iteration order) and their '
+		'monotonicity in the schema (unaligned_marks_monotone); tied to the code by a differential run '
 		'on really expanded random schemas and both shipped sets.'),
 	'level_note': (
 		'Trusted: Lean kernel + {propext, Classical.choice, Quot.sound}; hand-written model tied by differential execution only; the Python set '
